@@ -9,10 +9,10 @@ INJECTS = [("harness/libacc/lib_verif.go", "pkg/station/lib/zz_verif_acc.go"),
            ("harness/c09/lib_verif_c09.go", "pkg/station/lib/zz_verif_c09.go"),
            ("harness/c09/main/main.go", "internal/zzverif_c09/main.go"),
            ("harness/c09/main/log.go", "internal/zzverif_c09/log.go")]
-ASSUME = ["scheduling points: every lock acquisition (RWMutex with writer preference), channel operation and select, thread spawn, the liveness probe and the resolver (that is where real workers spend their time); releases are not points; stats counters use atomics and are not points",
+ASSUME = ["scheduling points: every lock acquisition (RWMutex with writer preference), channel operation and select, thread spawn, the liveness probe and the resolver (that is where real workers spend their time); releases are not points (except in the S8 scenarios, where every Unlock / RUnlock is one as well); stats counters use atomics and are not points",
           "serial differential oracle: the set of outcomes (announcement multiset with the covert at announcement time, final registry incl. validity / duplicate count / covert / used flag, every lookup's answer) of all serial orders of the same thread bodies is the specification; every concurrent outcome must be a member",
           "unsynchronised accesses are invisible to the cooperative scheduler: the clause 'never accessed without synchronisation' is covered by a free-running companion run of the same operations on the unmodified code under the Go race detector (adjunct_runs in the coverage; a sample of schedules, every report is a violation)"]
-S15 = ["S1:same-registration-twice+connection", "S2:same-secret-different-covert", "S2b:unresolved-name-vs-literal", "S3:worker+sweeper+connection@9m59s", "S3:worker+sweeper+connection@10m1s", "S3c:two-workers+lifetime-passes+sweeper", "S3b:sweeper+connection@three-expired,activate=1", "S3b:sweeper+connection@three-expired,activate=2", "S3b:sweeper+connection@three-expired,activate=3", "S4:worker+reload+lookup", "S5:three-workers+sweeper"]
+S15 = ["S1:same-registration-twice+connection", "S2:same-secret-different-covert", "S2b:unresolved-name-vs-literal", "S3:worker+sweeper+connection@9m59s", "S3:worker+sweeper+connection@10m1s", "S3c:two-workers+lifetime-passes+sweeper", "S8:lookup-all+second-transport@release-points", "S8:lookup-all+sweeper@release-points", "S3b:sweeper+connection@three-expired,activate=1", "S3b:sweeper+connection@three-expired,activate=2", "S3b:sweeper+connection@three-expired,activate=3", "S4:worker+reload+lookup", "S5:three-workers+sweeper"]
 def scripts(m, after):
     """all orderings of m arrivals, one probe-release and one stop, followed by `after` arrivals after the stop"""
     import itertools
@@ -53,7 +53,7 @@ def run(tier, seed, t0):
     res = vlib.run_workers(w, [["-scenario", s, "-tier", tier, "-budget", str(budget)] for s in scen], timeout=budget + 180)
     res += race_companion(tier)
     vlib.finish(PID, tier, "model_checking", res, t0, ASSUME,
-                "stateless DFS (state-key pruning; no preemption bound for S1-S4, bound 2/3 for S5, 1 (quick) / 2-3 (thorough) for the pipeline) over interleavings of: S1 two workers ingesting the same registration + a connection handler (lookup, activate) twice; S2/S2b two workers with the same secret and transport but different covert (forbidden literal / name resolving to a forbidden address vs permitted) + connection; S3 duplicate worker + sweeper + connection around the 10 min expiry; S3b three expired registrations on the sweep list while a connection activates one of them; S3c two workers ingesting the same registration while the unused lifetime passes and the sweeper runs (new exactly once per timeout record); S4 worker + OnReload that flips the covert policy + lookup; S5 three workers + sweeper; S6 the real HandleRegUpdates with 1/2/3 (thorough: also 10, i.e. a buffered hand-off) workers, a feeder, probes blocked until released, and a stop request at any moment with and without further input; S7 the stop request issued with k registrations already queued when the distributor reaches its receive point, select resolved in favour of the stop request: the pipeline must wind down without working through the queue",
+                "stateless DFS (state-key pruning; no preemption bound for S1-S4, bound 2/3 for S5, 1 (quick) / 2-3 (thorough) for the pipeline) over interleavings of: S1 two workers ingesting the same registration + a connection handler (lookup, activate) twice; S2/S2b two workers with the same secret and transport but different covert (forbidden literal / name resolving to a forbidden address vs permitted) + connection; S3 duplicate worker + sweeper + connection around the 10 min expiry; S3b three expired registrations on the sweep list while a connection activates one of them; S8 a handler that inspects everything a lookup hands out while a second registration on the same phantom is tracked / an old one is swept, with every lock release a scheduling point as well; S3c two workers ingesting the same registration while the unused lifetime passes and the sweeper runs (new exactly once per timeout record); S4 worker + OnReload that flips the covert policy + lookup; S5 three workers + sweeper; S6 the real HandleRegUpdates with 1/2/3 (thorough: also 10, i.e. a buffered hand-off) workers, a feeder, probes blocked until released, and a stop request at any moment with and without further input; S7 the stop request issued with k registrations already queued when the distributor reaches its receive point, select resolved in favour of the stop request: the pipeline must wind down without working through the queue",
                 seed=seed)
 
 
